@@ -49,7 +49,8 @@ class Gen:
                 return r.choice(["0", "1", "2", "3", "7", "10", "5", "4", "100", "int(3)", "int(7)", "2147483647" if r.random() < 0.1 else "6"])
             k = r.random()
             if k < 0.6:
-                return "(%s %s %s)" % (self.const_expr(INT, d + 1), r.choice(["+", "-", "*", "/", "%", "<<", "&", "|", "^"]), self.const_expr(INT, d + 1))
+                op = r.choice(["+", "-", "*", "/", "%", "<<", ">>", "&", "|", "^"])
+                return "(%s %s %s)" % (self.const_expr(INT, d + 1), op, str(r.randint(0, 4)) if op in ("<<", ">>") and r.random() < 0.9 else self.const_expr(INT, d + 1))
             if k < 0.8:
                 return "(%s%s)" % (r.choice(["-", "+", "~"]), self.const_expr(INT, d + 1))
             return "(%s ? %s : %s)" % (self.const_expr(BOOL, d + 1), self.const_expr(INT, d + 1), self.const_expr(INT, d + 1))
